@@ -117,3 +117,36 @@ int vs_sigaction(int s, const struct sigaction *a, struct sigaction *o) { return
 int vs_sigemptyset(sigset_t *s) { return sigemptyset(s); }
 int vs_sigfillset(sigset_t *s) { return sigfillset(s); }
 pid_t vs_waitpid(pid_t p, int *st, int o) { jitter(); return waitpid(p, st, o); }
+
+// alternates (see vsys.c): plain pass-through
+#include <sys/socket.h>
+#include <sys/time.h>
+int vs_pipe2(int fds[2], int flags) { jitter(); return pipe2(fds, flags); }
+int vs_dup(int fd) { jitter(); return dup(fd); }
+int vs_dup3(int a, int b, int f) { return dup3(a, b, f); }
+int vs_sigprocmask(int how, const sigset_t *s, sigset_t *o) { return sigprocmask(how, s, o); }
+int vs_ppoll(struct pollfd *f, nfds_t n, const struct timespec *ts, const sigset_t *m) { jitter(); return ppoll(f, n, ts, m); }
+pid_t vs_wait4(pid_t p, int *st, int o, void *ru) { jitter(); return wait4(p, st, o, (struct rusage *) ru); }
+int vs_waitid(int t, id_t id, siginfo_t *i, int o) { jitter(); return waitid((idtype_t) t, id, i, o); }
+int vs_openat(int d, const char *p, int fl, ...)
+{
+  va_list ap;
+  va_start(ap, fl);
+  int mode = va_arg(ap, int);
+  va_end(ap);
+  jitter();
+  return openat(d, p, fl, mode);
+}
+int vs_close_range(unsigned lo, unsigned hi, int flags)
+{
+  for (unsigned fd = lo; fd <= hi && fd < 65536; fd++) close((int) fd);
+  (void) flags;
+  return 0;
+}
+void vs__Exit(int s) { _exit(s); }
+int vs_execv(const char *p, char *const a[]) { return execv(p, a); }
+int vs_execve(const char *p, char *const a[], char *const e[]) { return execve(p, a, e); }
+int vs_execvpe(const char *p, char *const a[], char *const e[]) { return execvpe(p, a, e); }
+pid_t vs_vfork(void) { jitter(); return fork(); }
+int vs_socketpair(int d, int t, int p, int sv[2]) { jitter(); return socketpair(d, t, p, sv); }
+int vs_gettimeofday(struct timeval *tv, void *tz) { return gettimeofday(tv, (struct timezone *) tz); }
